@@ -68,6 +68,11 @@ def opFn (j : Json) : Except String Json := do
     let a0 ← argStr j 0
     let a1 ← argBool j 1
     return Json.mkObj [("r", jstr (Pinned.Funcs.sort_lines a0 a1))]
+  if name == "metadata_doc" then
+    let a0 ← argStr j 0
+    let a1 ← argStr j 1
+    let a2 ← argListStr j 2
+    return Json.mkObj [("r", jstr (Pinned.Funcs.metadata_doc a0 a1 a2))]
   throw s!"unknown translated function {name}"
 
 def opsFuncs : List (String × (Json → Except String Json)) := [("fn", opFn)]
